@@ -9,6 +9,8 @@
          kdf.mnemonic mnemonic flag passphrase    (ExtendedPrivateKey::from_mnemonic: private key; chain code)
          kdf.seed seed                            (ExtendedPrivateKey::from_seed: private key; chain code)
          kdf.pbkdf2_impl pw salt algo rounds len  (KDF::pbkdf2_impl called directly)
+         kdf.mnemonic_route mnemonic flag pass    (driver compares from_mnemonic with from_seed (KDF::pbkdf2 (mnemonic as given) salt SHA512 2048 64))
+         kdf.mnemonic_kat m/flag/pass/priv/chain  (one argument; quick-tier known answer, see run_mnemonic_kat)
          digest.oneshot adapter msg               (D::digest(msg); output size; block size)
          digest.seq adapter start step...         (any interleaving of the adapter's entry points, see run_seq) *)
 From BSV Require Import Base.Hex Prim.MD Prim.Hmac Prim.Pbkdf2 Spec.HashSpec Model.HashApi.
@@ -78,6 +80,30 @@ Definition run_seed (seed : bytes) : string := out3 (show_keys (from_seed_keys s
 Definition run_mnemonic (m : bytes) (pass : option bytes) : string :=
   out3 (show_keys (from_mnemonic_keys true m pass))
        (spec_keys (pbkdf2_spec HSha512 m (mnemonic_salt pass) 2048 64)) "-".
+
+(* kdf.mnemonic_route: in the model from_mnemonic_keys IS from_seed_keys after pbkdf2_impl on the bytes as given
+   (Model/HashApi.v, mnemonic_seed / from_mnemonic_keys; lemma mnemonic_seed_spec), for every argument, so the two
+   equalities the driver evaluates on the library hold by definition: the output is constant.  The 2048-round
+   evaluation in Gallina itself is op kdf.mnemonic (thorough tier). *)
+Definition run_mnemonic_route : string := out3 "OK:1;1" "OK:1;1" "-".
+
+(* kdf.mnemonic_kat: 2048 rounds of HMAC-SHA512 cost about two minutes under vm_compute, so in the quick tier the
+   implementation column is "*" (not evaluated) and the specification column is the value the generator computed with
+   an independent implementation (python hashlib: PBKDF2-HMAC-SHA512 over the mnemonic bytes as given, salt as
+   mnemonic_salt, then HMAC-SHA512 keyed "Bitcoin seed"), passed in the argument.  The same inputs go through
+   kdf.mnemonic (Gallina) in the thorough tier. *)
+Definition run_mnemonic_kat (arg : string) : string :=
+  match split "/" arg with
+  | [m; flag; pass; k; c] =>
+      match expand m, expand pass, bytes_of_hex k, bytes_of_hex c with
+      | Some _, Some _, Some kb, Some cb =>
+          if (String.eqb flag "0" || String.eqb flag "1") && Nat.eqb (length kb) 32 && Nat.eqb (length cb) 32
+          then out3 "*" ("OK:" +++ hex_of_bytes kb +++ ";" +++ hex_of_bytes cb) "-"
+          else "BADARG"
+      | _, _, _, _ => "BADARG"
+      end
+  | _ => "BADARG"
+  end.
 
 (* ------------------------------------------------------------------ *)
 Definition adapter_of_name (s : string) : option (adapter_kind * hash_id) :=
@@ -247,6 +273,12 @@ Definition run (op : string) (args : list string) : string :=
           | Some p, Some s, Some a, Some r, Some l => run_pbkdf2 a p s r l
           | _, _, _, _, _ => "BADARG"
           end
+      | "mnemonic_route", [m; flag; pass] =>
+          match expand m, flag, expand pass with
+          | Some _, "0", Some _ | Some _, "1", Some _ => run_mnemonic_route
+          | _, _, _ => "BADARG"
+          end
+      | "mnemonic_kat", [a] => run_mnemonic_kat a
       | "seed", [seed] => match expand seed with Some sd => run_seed sd | None => "BADARG" end
       | "mnemonic", [m; flag; pass] =>
           match expand m, flag, expand pass with
